@@ -15,8 +15,9 @@
 namespace selftest {
 
 inline int run(int argc, char** argv) {
-    (void)argc;
-    (void)argv;
+    bool quick = false;
+    for (int i = 2; i < argc; i++)
+        if (!strcmp(argv[i], "--quick")) quick = true;
     int fails = 0;
     // 1. 8-byte reals
     static const double vals[] = {1.0, 1e-3, 1e-9, 0.5, 16.0, 1.0 / 16, 255.0, 1e-6 / 1e-9, 0.001, 123456.789, 2.54e-5, 90.0, 359.999, 7.0e-10};
@@ -35,7 +36,7 @@ inline int run(int argc, char** argv) {
         }
     }
     // 2. encoder . decoder = identity on the canonical form, all choices
-    int n = 2000;
+    int n = quick ? 400 : 2000;
     for (int i = 0; i < n; i++) {
         sim::Rng r(scen::run_seed(12345, (uint64_t)i));
         sim::Rng rm = r.fork(1), rc = r.fork(2);
@@ -88,7 +89,7 @@ inline int run(int argc, char** argv) {
                                  model::Pt{p.ccenter.x + r, p.ccenter.y}, model::Pt{p.ccenter.x, p.ccenter.y + r}};
                     }
         };
-        int n2 = 3000;
+        int n2 = quick ? 600 : 3000;
         uint64_t census_special = 0, census_modal = 0, census_cblock = 0;
         for (int i = 0; i < n2; i++) {
             sim::Rng r(scen::run_seed(777, (uint64_t)i));
